@@ -344,6 +344,19 @@ template<class V> void adopt_firsts_from(V const& v, MView& m) {
 }
 struct Stats { long states = 0, transitions = 0, completed_depth = -1; bool capped = false; };
 
+// Fingerprint of the REAL view value (base displacement from the root's base in bytes + every layout field the library stores, including the ones the
+// affine model does not have: nelems and offset of every level).  Two results are merged only when model state AND this fingerprint agree, so
+//  (a) a transition that lands on an already-known model state with a different real value is a NEW state and gets the full oracle, and
+//  (b) real states that differ only in hidden layout fields (same affine map, different nelems/offset) are expanded separately: they may have different futures.
+template<class P> auto raw_addr_(P const& p) { if constexpr(std::is_pointer_v<P>) { return reinterpret_cast<std::uintptr_t>(p); } else { return reinterpret_cast<std::uintptr_t>(p.verif_raw()); } }
+template<class L> void layout_fp_(L const& l, std::string& s) {
+	if constexpr(L::dimensionality > 0) { s += std::to_string(l.stride()) + "," + std::to_string(l.offset()) + "," + std::to_string(l.nelems()) + ";"; layout_fp_(l.sub(), s); }
+}
+template<class R, class W> std::string real_fp(R const& start, W const& w) {
+	std::string s = "#" + std::to_string(static_cast<std::ptrdiff_t>(raw_addr_(w.base()) - raw_addr_(start.base()))) + ":";
+	layout_fp_(w.layout(), s); return s;
+}
+
 // visit(v, model, hist) -> bool : full oracle on a NEW state; return false to mark the state violating (not expanded).
 // The search executes every transition on the implementation (apply1 on the real parent view).
 template<class Root, class Visit>
@@ -352,7 +365,7 @@ Stats bfs(Root& root, MView const& m0, Config const& cfg, std::set<std::string> 
 	std::deque<St> fr; std::unordered_set<std::string> seen; Stats st;
 	auto start = root();
 	MView mr = m0; mr.ro = is_ro_v<decltype(start)>;
-	seen.insert(key_of(mr)); ++st.states;
+	seen.insert(key_of(mr) + real_fp(start, start)); ++st.states;
 	{
 		Hist h0; mc::cur_set("root", prefix);
 		if(visit(start, mr, h0)) { fr.push_back(St{h0, mr}); }
@@ -378,7 +391,7 @@ Stats bfs(Root& root, MView const& m0, Config const& cfg, std::set<std::string> 
 					executed = true; ++st.transitions;
 					m2.ro = is_ro_v<decltype(w)>;
 					if(cfg.adopt_firsts) { adopt_firsts_from(w, m2); }
-					auto k = key_of(m2);
+					auto k = key_of(m2) + real_fp(start, w);
 					if(!seen.insert(k).second) { return; }
 					++st.states;
 					if(visit(w, m2, h2)) { fr.push_back(St{h2, m2}); }
